@@ -160,6 +160,7 @@ ELEM = {  # kind -> (impl processor name, coq proc, parameter names, has default
     "psink": ("FloatPayloadSink", "lib_sink0", [], {}),
     "csum": ("FloatCollectionSumOperation", "lib_csum", [], {}),
     "failing": ("@VerifFailingOperation", "lib_failing", [], {}),
+    "copyprobe": ("CopyDataProbe", "lib_copyprobe", [], {}),      # BaseDataType in, passes any data through
 }
 SOURCES = ("src", "srcdef", "csrc", "psrc")
 F2F = ("mul", "muldef", "add", "square", "divide", "failing")
@@ -477,7 +478,7 @@ def gen_sweep(rng, elem, stats, need=None):
     eparams = ELEM[elem][2]
     exprs = []
     for pn in eparams:
-        if rng.random() < 0.8:
+        if rng.random() < 0.65:
             exprs.append((pn, rand_sweep_expr(rng, names)))
     n = {"k": "sweep", "elem": elem, "vars": vars_, "exprs": exprs, "mode": mode, "broadcast": broadcast}
     for pn in eparams:
@@ -489,7 +490,7 @@ def gen_sweep(rng, elem, stats, need=None):
     return n
 
 
-def gen_pipeline(rng, stats, maxlen=8, malformed=0.0):
+def gen_pipeline(rng, stats, maxlen=8, malformed=0.0, extra=False):
     ln = rng.randint(1, maxlen)
     nodes = []
     need = {}
@@ -553,7 +554,7 @@ def gen_pipeline(rng, stats, maxlen=8, malformed=0.0):
             elif c in ("square", "sink0", "psink", "failing"):
                 n = {"k": c}
             elif c == "probe":
-                n = {"k": "probe", "ckey": rng.choice(KEYS)}
+                n = {"k": "probe", "ckey": rng.choice(KEYS)} if not (extra and rng.random() < 0.3) else {"k": "copyprobe", "ckey": rng.choice(KEYS)}
             elif c == "ctxwrite":
                 n = {"k": "ctxwrite", "key": rng.choice(KEYS)}
             elif c == "badwrite":
@@ -567,14 +568,17 @@ def gen_pipeline(rng, stats, maxlen=8, malformed=0.0):
                 n = {"k": "src"}
                 place_param(rng, n, "value", stats, need, False)
         else:  # collection
-            c = rng.choice(["smul", "smul", "sadd", "ssq", "sprobe", "sprobe", "csum", "csum"])
+            c = rng.choice(["smul", "smul", "sadd", "ssq", "sprobe", "sprobe", "csum", "csum", "smuldef"]
+                           + (["copyprobe", "copyprobe"] if extra else []))
             if c == "csum":
                 n = {"k": "csum"}
                 cur = "F"
             elif c == "sprobe":
                 n = {"k": "slice", "elem": "probe", "ckey": rng.choice(KEYS)}
+            elif c == "copyprobe":
+                n = {"k": "copyprobe", "ckey": rng.choice(KEYS)}
             else:
-                e = {"smul": "mul", "sadd": "add", "ssq": "square"}[c]
+                e = {"smul": "mul", "sadd": "add", "ssq": "square", "smuldef": "muldef"}[c]
                 n = {"k": "slice", "elem": e}
                 for pn in ELEM[e][2]:
                     place_param(rng, n, pn, stats, need, pn in ELEM[n.get('elem', n['k'])][3])
